@@ -1,5 +1,5 @@
 """Shared paths and small helpers for the /verif framework (glue only: no expected results are computed here)."""
-import json, os, shutil, subprocess, sys, time, fcntl, hashlib, contextlib
+import json, os, shutil, subprocess, sys, time, fcntl, hashlib, contextlib, threading
 
 VERIF = os.path.dirname(os.path.dirname(os.path.abspath(__file__)))
 REPO = os.environ.get("VERIF_REPO", "/repo")
@@ -88,6 +88,7 @@ class Result:
         self.cov = {"states": 0, "transitions": 0, "traces_validated_against_impl": 0, "samples": []}
         self.assumptions = []
         self.infra_errors = []
+        self._lock = threading.Lock()
     def add_tlc(self, st):
         self.cov["states"] += st.get("distinct", 0)
         self.cov["transitions"] += st.get("generated", 0)
@@ -95,4 +96,5 @@ class Result:
         if len(self.cov["samples"]) < limit:
             self.cov["samples"].append(s)
     def count(self, key, n=1):
-        self.cov[key] = self.cov.get(key, 0) + n
+        with self._lock:
+            self.cov[key] = self.cov.get(key, 0) + n
